@@ -104,8 +104,10 @@ Routed == \A i \in PIdx : ~(cfg.pa[i].loc = "path" /\ cfg.pa[i].kind = "string" 
                             /\ wire[i].v.s = "slash" /\ Dev("client.path_not_escaped"))
 
 \* validation as the server performs it
+\*   validate.exclusive_max_unchecked   with both ExclusiveMinimum and ExclusiveMaximum only the minimum is checked
 ServerValid(a, d) ==
   IF d = Absent /\ a.mode = "optional" /\ a.rule = "cminlen" /\ Dev("validate.absent_collection_length") THEN FALSE
+  ELSE IF d # Absent /\ a.rule = "xrange" /\ Dev("validate.exclusive_max_unchecked") THEN Num2(d) > 2 * Lo
   ELSE ValidAttr(a, d)
 ServerViolation(a, d) ==
   IF d = Absent /\ a.mode = "optional" /\ a.rule = "cminlen" THEN "invalid_length" ELSE ViolationOf(a, d)
